@@ -42,6 +42,10 @@ pub fn run(case: &Value, ctx: &Ctx) -> Outcome {
         ("bcf.gz/one-block", gen::bgzf(&[&raw])),
         ("bcf.gz/61-byte-blocks", gen::bgzf_chunks(&raw, 61)),
         ("bcf.gz/empty-first-block", { let mut b = gen::bgzf_block(&[]); b.extend(gen::bgzf_chunks(&raw, 300)); b }),
+        // BGZF as written by something other than htslib: MTIME stamped, XFL = 2 / 4, OS = 3 (Unix), stored (level 0) blocks
+        ("vcf.gz/foreign-header", gen::bgzf_chunks_with(vcf.as_bytes(), 500, 1_700_000_000, 2, 3, flate2::Compression::best())),
+        ("bcf.gz/foreign-header", gen::bgzf_chunks_with(&raw, 200, 0, 4, 3, flate2::Compression::fast())),
+        ("vcf.gz/stored-blocks", gen::bgzf_chunks_with(vcf.as_bytes(), 300, 0, 0, 0xff, flate2::Compression::none())),
     ];
     let mut base_args: Vec<String> = vec!["create".into()];
     if case["strict"].as_bool().unwrap() {
